@@ -22,16 +22,18 @@ type Std struct {
 	// named types with a String method: a byte slice, a string, an integer
 	NDigest, NStrS, NIntS *Type
 	// local structs
-	SV  *Type // pointer-free, ==-comparable struct
-	SP  *Type // struct with pointer / slice / map content
-	SE  *Type // struct embedding SV and *SP
-	SR  *Type // recursive struct
-	SEq *Type // struct with Equal+Compare methods implemented by derived functions (the idiom)
-	SCi *Type // struct with custom (case-insensitive) Equal/Compare methods
-	SCv *Type // same, but the methods have value receivers and value parameters
-	SCd *Type // struct{N int32} whose Compare method returns the difference of the N (any int, not just -1/0/+1); C13 only
-	SD  *Type // struct with an SCd field
-	SH  *Type // ==-comparable struct whose fields have the custom methods (the methods must still decide)
+	SV   *Type // pointer-free, ==-comparable struct
+	SP   *Type // struct with pointer / slice / map content
+	SE   *Type // struct embedding SV and *SP
+	SR   *Type // recursive struct
+	SEq  *Type // struct with Equal+Compare methods implemented by derived functions (the idiom)
+	SCi  *Type // struct with custom (case-insensitive) Equal/Compare methods
+	SCv  *Type // same, but the methods have value receivers and value parameters
+	SCn  *Type // like SCi, but Equal and Compare take an interface{} parameter
+	SPad *Type // pointer-free struct with blank (padding) fields
+	SCd  *Type // struct{N int32} whose Compare method returns the difference of the N (any int, not just -1/0/+1); C13 only
+	SD   *Type // struct with an SCd field
+	SH   *Type // ==-comparable struct whose fields have the custom methods (the methods must still decide)
 	// imported
 	XE    *Type // imported struct, exported fields only
 	XU    *Type // imported struct with unexported fields (nameable types)
@@ -73,6 +75,9 @@ func NewStd(u *Universe) *Std {
 	s.SCi.EqualMethod, s.SCi.CompareMethod, s.SCi.HashMethod = "custom", "custom", "custom"
 	s.SCv = u.DeclareAs("", "SCv", StructOf(F("Word", B("string"))))
 	s.SCv.EqualMethod, s.SCv.CompareMethod, s.SCv.HashMethod = "customv", "customv", "customv"
+	s.SCn = u.DeclareAs("", "SCn", StructOf(F("Word", B("string"))))
+	s.SCn.EqualMethod, s.SCn.CompareMethod, s.SCn.HashMethod = "customi", "customi", "custom"
+	s.SPad = u.DeclareAs("", "SPad", StructOf(F("A", B("int8")), F("_", Array(3, B("byte"))), F("B", B("string")), F("_", B("int"))))
 	s.SCd = u.DeclareAs("", "SCd", StructOf(F("N", B("int32"))))
 	s.SCd.CompareMethod = "customd"
 	s.SD = u.DeclareAs("", "SD", StructOf(F("At", s.SCd), F("V", B("int8"))))
@@ -109,7 +114,7 @@ func (s *Std) Leaves() []*Type {
 // ExtraLeaves are used by the random part only.
 func (s *Std) ExtraLeaves() []*Type {
 	return []*Type{B("int8"), B("int16"), B("int32"), B("int64"), B("uint"), B("uint16"), B("uint32"), B("uint64"), B("uintptr"),
-		B("float32"), B("complex64"), B("byte"), s.NBool, s.NU8, s.NDigest, s.NStrS, s.NIntS, s.SE, s.SEq, s.SCi, s.SCv, s.SH, s.XB, s.XO, s.XDupC, s.SM1, s.SM2, s.XDupA, s.XDupB, s.XN, s.NSlice, s.NMap, s.NArr, s.NPtr}
+		B("float32"), B("complex64"), B("byte"), s.NBool, s.NU8, s.NDigest, s.NStrS, s.NIntS, s.SE, s.SEq, s.SCi, s.SCv, s.SCn, s.SPad, s.SH, s.XB, s.XO, s.XDupC, s.SM1, s.SM2, s.XDupA, s.XDupB, s.XN, s.NSlice, s.NMap, s.NArr, s.NPtr}
 }
 
 // Keys returns the value-key types for maps (pointer-free, ==-comparable).
